@@ -32,3 +32,30 @@ package push
 //@   ensures [hands_over_everything_in_order] arr(result) == old(arr(m.m)) && off(result) == old(off(m.m)) && len(result) == old(len(m.m))
 //@   ensures [nothing_is_kept] len(m.m) == 0 && m.m == nil
 //@   ensures [lock_released] ghost.held[addr(m.l)] == 0
+
+// ---- publishing: accepted <=> stored, once, in the cache of a subscribed (client, topic) --------
+//
+// b.messages: client id -> *sync.Map (topic -> *MessageCache, or nil after Deny); both levels are
+// modelled by the ghost dictionaries of the sync.Map contracts (sequential view per operation).
+
+// (assumed) waking the poller: may move messages from caches to a responder, never adds any
+//@ func (*Broker).response
+//@   havoc
+//@   modifies ghost.*
+
+//@ func (*Broker).Unicast
+//@   prop C19
+//@   flag typeassert=panic
+//@   havoc
+//@   requires b != nil
+//@   requires [topic_tables_hold_caches_or_nil] ghost.sm_val[ival(ghost.sm_val[addr(b.messages)][str(id)])][str(topic)] != nil ==>
+//@       as(ghost.sm_val[ival(ghost.sm_val[addr(b.messages)][str(id)])][str(topic)], *MessageCache) != nil
+//@   modifies ghost.*
+//@   let T = ival(ghost.sm_val[addr(b.messages)][str(id)])
+//@   let C = as(ghost.sm_val[ival(ghost.sm_val[addr(b.messages)][str(id)])][str(topic)], *MessageCache)
+//@   atcall Append [only_into_the_cache_of_this_client_and_topic] arg0 == C && same(arg1.Data, data) && arg1.From == from
+//@   atcall response [accepted_message_is_in_its_cache_exactly_once_when_the_poller_is_woken] len(C.m) == old(len(C.m)) + 1 &&
+//@       same(C.m[len(C.m) - 1].Data, data) && C.m[len(C.m) - 1].From == from
+//@   atcall response [the_right_poller_is_woken] arg2 == id
+//@   ensures [accepted_iff_subscribed_and_not_denied] result == (old(ghost.sm_has[addr(b.messages)][str(id)]) && old(ghost.sm_has[T][str(topic)]) && old(ghost.sm_val[T][str(topic)]) != nil)
+//@   ensures [a_refused_message_is_stored_nowhere] !result ==> len(C.m) == old(len(C.m))
